@@ -152,8 +152,34 @@ impl Attacker {
         self.counter += 1;
         self.stash().join(format!("{}{}", prefix, self.counter))
     }
+    /// The attacker works inside the root only: a target whose parent chain crosses a
+    /// link (planted by an earlier mutation) would make the attacker itself reach
+    /// outside the root through its own link.
+    fn parent_is_plain(&self, rel: &std::path::Path) -> bool {
+        let mut cur = self.root();
+        if let Some(par) = rel.parent() {
+            for c in par.components() {
+                match c {
+                    std::path::Component::Normal(n) => cur.push(n),
+                    std::path::Component::CurDir => continue,
+                    _ => return false,
+                }
+                match std::fs::symlink_metadata(&cur) {
+                    Ok(md) if md.is_dir() => {}
+                    _ => return false,
+                }
+            }
+        }
+        true
+    }
+
     pub fn apply(&mut self, m: &Mutation) {
         self.note_inside();
+        if !matches!(m.kind, MutKind::RenameRoot) && (!self.parent_is_plain(m.target.as_path()) || m.other.as_ref().map(|q| !self.parent_is_plain(q.as_path())).unwrap_or(false)) {
+            self.failed += 1;
+            self.log.push(format!("skipped {:?} on {}: its parent is no longer a plain directory inside the root", m.kind, m.target));
+            return;
+        }
         let t = self.root().join(m.target.as_path());
         let res: Result<(), i32> = (|| match &m.kind {
             MutKind::MoveOut => {
